@@ -96,6 +96,25 @@ theorem isShape_of_wellShaped {m : Mat K} (h : wellShaped m = true) :
       simp only [List.headD_cons]
       exact List.length_pos_of_ne_nil (h2 row (by simp))
 
+/-! ### extensionality: a well-shaped list matrix is determined by its entries -/
+
+theorem get_eq_getElem {a : Mat K} {i j : Nat} (hi : i < a.length) (hj : j < a[i].length) :
+    get a i j = a[i][j] := by
+  unfold Mat.get
+  simp [List.getD_eq_getElem?_getD, List.getElem?_eq_getElem hi, hj]
+
+theorem toM_injective {a b : Mat K} {r c : Nat} (ha : IsShape a r c) (hb : IsShape b r c)
+    (h : toM r c a = toM r c b) : a = b := by
+  apply List.ext_getElem (ha.1.trans hb.1.symm)
+  intro i hi1 hi2
+  have hla : a[i].length = c := ha.2 _ (List.getElem_mem _)
+  have hlb : b[i].length = c := hb.2 _ (List.getElem_mem _)
+  apply List.ext_getElem (hla.trans hlb.symm)
+  intro j hj1 hj2
+  have := congrFun (congrFun h ⟨i, ha.1 ▸ hi1⟩) ⟨j, hla ▸ hj1⟩
+  simp only [toM] at this
+  rwa [get_eq_getElem hi1 hj1, get_eq_getElem hi2 hj2] at this
+
 /-! ### tables -/
 
 theorem tab_isShape (r c : Nat) (f : Nat → Nat → K) : IsShape (tab r c f) r c := by
